@@ -141,7 +141,7 @@ def group_key(kind, spec, schemas):
 # ------------------------------------------------------------------ payload pools
 def pools(rng, tier):
     quick = tier == "quick"
-    per = 24 if quick else 400
+    per = 24 if quick else 120
     pool = {k: [] for k in MODEL_KINDS}
     # parameter blocks, schedules, alerts, uid, password: the generators of c05_params (encoded by the Lean driver)
     streams = pp.build_streams(random.Random(rng.random()), "quick", list(pp.GENS))
@@ -189,7 +189,7 @@ def frame_level(res, rng, tier):
         if cls not in classes.values():
             classes["other:" + name] = cls
             pool["other:" + name] = [(bytes(rng.choice([0, 1, 2, 255, rng.randrange(256)]) for _ in range(rng.choice([0, 1, 2, 4, 9, 20, 60]))), False)
-                                     for _ in range(16 if tier == "quick" else 300)]
+                                     for _ in range(16 if tier == "quick" else 100)]
     res.extra["decodable_kinds"] = sorted(classes)
     for kind, cls in classes.items():
         for item in pool[kind]:
@@ -264,7 +264,7 @@ async def _drop(devs):
 
 
 async def _device_level(res, rng, tier, pool, schemas, classes):
-    per = 10 if tier == "quick" else 150
+    per = 10 if tier == "quick" else 60
     for kind, cls in classes.items():
         items = list(pool[kind])
         rng.shuffle(items)
